@@ -479,10 +479,10 @@ func convStmt(s interface{}) interface{} {
 		}
 		limit, offset := []interface{}{}, []interface{}{}
 		if x.LimitActive {
-			limit = append(limit, x.Limit)
+			limit = append(limit, obj{"k": "int", "i": x.Limit})
 		}
 		if x.OffsetActive {
-			offset = append(offset, x.Offset)
+			offset = append(offset, obj{"k": "int", "i": x.Offset})
 		}
 		return obj{"k": "select", "items": items, "from": from, "joins": joins, "where": convWhere(x.WhereClause),
 			"group": group, "order": order, "limit": limit, "offset": offset}
